@@ -20,6 +20,8 @@ def log(msg):
 
 def sh(cmd, cwd=None, timeout=None, stdin=None, env=None):
     """Run, return (rc, combined output) with the harmless conda warning filtered."""
+    if os.environ.get("VERIF_STREAM_TIMEOUT") and timeout and timeout > int(os.environ["VERIF_STREAM_TIMEOUT"]) and cmd and "cargo" not in cmd[0] and "lake" not in cmd[0]:
+        timeout = int(os.environ["VERIF_STREAM_TIMEOUT"])      # (campaign runs of bin/mutants cap every stream)
     try:
         p = subprocess.run(cmd, cwd=cwd, timeout=timeout, stdin=stdin, env=env or ENV,
                            stdout=subprocess.PIPE, stderr=subprocess.STDOUT, text=True, errors="replace")
